@@ -31,7 +31,7 @@ PROFILES = {
     'alias': dict(weights=_w(0.4, StoryAppend=1.5, StoryInsert=1.5, StoryReplace=1.5, EAStoryInsert=1.5, EAStoryReplace=1.5,
                              ItemInsert=2, ItemReplace=2, ItemDelete=2, EAItemInsert=2, EAItemReplace=2, EAItemDelete=2,
                              EAItemSwap=1, ItemMoveMultiple=1, MetadataReplace=1.5, StorySend=1, RODelete=0.2, ROReplace=0.1),
-                  max_stories=4, max_steps=24, restart_rate=0.0, double=True, twin_lag=[0, 1, 2, 3, 5, 8], edit_inside=True),
+                  max_stories=4, max_steps=24, restart_rate=0.0, double=True, twin=True, twin_lag=[0, 1, 2, 3, 5, 8], edit_inside=True),
     'timing': dict(weights=_w(0.5, StoryInsert=1.5, StoryAppend=1.5, StoryReplace=1.5, StorySend=1.5, StoryMove=1.5,
                               EAStoryMove=1.5, EAStorySwap=1.5, StoryDelete=1.0, MetadataReplace=1.0, **{k: v for k, v in _LOW.items() if k != 'MetadataReplace'}),
                    max_stories=7, max_steps=20, explicit_times=0.4, durations=['all', 'all', 'all', 'mixed', 'none']),
@@ -139,7 +139,7 @@ def generate(seed, profile_name, faulty=None):
     g = Ncs(seed, P, faulty)
     R = g.R
     RR = random.Random('%d/restart' % seed)
-    cfg = {'profile': profile_name, 'faulty': faulty, 'page_size': R.randint(1, 7), 'double': bool(P.get('double')),
+    cfg = {'profile': profile_name, 'faulty': faulty, 'page_size': R.randint(1, 7), 'double': bool(P.get('double')), 'twin': bool(P.get('twin')),
            'prefix': R.choice(['ro/', '', 'a/b/', 'ro'])}
     steps = []
     mid = R.choice([1, 7, 8, 95, 98, 996, 9990, 99990, 1234567])
